@@ -53,10 +53,12 @@ def cd_cases(inst, rnd, thorough):
         cases.append({"field": "selectors_info.groups.%d.end" % gi, "op": "-1"})
     # gate identifiers: swap a gate for its neighbour's identifier; change one numeric parameter
     import re
-    for g in (range(ng) if thorough else rnd.sample(range(ng), 4)):
+    swaps = set(range(ng) if thorough else rnd.sample(range(ng), 4))
+    for g in range(ng):  # every gate's parameters in both tiers (a run at one query round is cheap); identifier swaps sampled in the quick tier
         gid = cd["gates"][g]
         other = cd["gates"][(g + 1) % ng]
-        cases.append({"field": "gates.%d" % g, "op": "set:" + json.dumps(other)})
+        if g in swaps:
+            cases.append({"field": "gates.%d" % g, "op": "set:" + json.dumps(other)})
         m = list(re.finditer(r"(num_ops|num_limbs|num_consts|num_coeffs|num_power_bits|bits|num_copies|degree): (\d+)", gid))
         for mm in m[:2]:
             v = int(mm.group(2))
@@ -64,6 +66,9 @@ def cd_cases(inst, rnd, thorough):
             cases.append({"field": "gates.%d" % g, "op": "set:" + json.dumps(ng2)})
     cases.append({"field": "quotient_degree_factor", "op": "-1"})
     cases.append({"field": "num_partial_products", "op": "-1"})
+    # a grinding difficulty far above the leading zeros any shipped response has (16..18): the copy the proof-of-work check reads
+    cases.append({"field": "fri_params.config.proof_of_work_bits", "op": "set:40"})
+    cases.append({"field": "fri_params.config.proof_of_work_bits", "op": "set:27"})
     cases.append({"field": "fri_params.degree_bits", "op": "+1"})
     cases.append({"field": "fri_params.degree_bits", "op": "-1"})
     return cases
